@@ -233,6 +233,12 @@ def rule_H4(ctx, R):
             continue
         bad = None
         for p in paths:
+            if p.kind == "unwind":
+                own = [e for e in p.events if e["k"] in ("PANIC", "ASSERT_FAIL")]
+                if own:
+                    bad = ("can panic on its own (%s) instead of handing back the stored value: the value is lost, and containers that "
+                           "convert element by element leak the elements already converted" % (own[-1].get("what") or own[-1]["k"]))
+                continue
             if p.kind != "ret" or not p.value:
                 continue
             v = p.value
